@@ -146,7 +146,7 @@ PLANS["C09"] = {
                           "randomly; drained bytes are compared on the fly with the reference encoding; the maximum lag per stream length is recorded."),
     "assumptions": CODEC_ASSUME + ["lag bound checked: 1 MiB (largest arena chunk; harness keeps single reads <= 1 MiB) + 64008 + 2",
                                    "unbounded stream length restated as: same bound observed at several stream lengths"],
-    "required_features": CODEC_REQ + ["stream.policy.Never", "stream.policy.AllEveryCall", "stream.pipeline"],
+    "required_features": CODEC_REQ + ["stream.policy.Never", "stream.policy.AllEveryCall", "stream.pipeline", "codec.dec.abandoned_midway_take_iovec_is_prefix"],
     "quick": [R("codec", "dbg", mode="sweep,random", sweep_len=6, dec_sweep_len=3, prod_cases=60000, tiny_cases=1000000, drain_weight=70),
               R("codec-stream", "rel", shards=16, streams=64, mib=16, big_mib=64)],
     "thorough": [R("codec", "dbg", mode="sweep,random", sweep_len=8, dec_sweep_len=3, prod_cases=150000, tiny_cases=3000000, drain_weight=70),
@@ -348,7 +348,8 @@ PLANS["C14"] = {
     "assumptions": ["local times exactly on a window or epoch edge are whole milliseconds (the statement does not define inclusiveness for a sub-millisecond excess; the crate truncates to ms)",
                     "the crate's vouching parameters are the ones in its source; a wrong voucher is any other 64-bit value (the voucher map is a bijection)"],
     "required_features": ["vtime.accepted", "vtime.rejected_bad_voucher", "vtime.rejected_outside_window", "vtime.rejected_before_epoch",
-                          "vtime.window_or_epoch_edge_cases", "vtime.base_within_70000_of_u64_max", "vtime.now_cases", "vtime.now_provider_error_propagated"],
+                          "vtime.window_or_epoch_edge_cases", "vtime.base_within_70000_of_u64_max", "vtime.now_cases", "vtime.now_provider_error_propagated",
+                          "vtime.new_or_die_compared_with_new", "vtime.now_or_die_cases"],
     "quick": [R("vtime", "dbg", cases=200000000, now_cases=400000)],
     "thorough": [R("vtime", "dbg", cases=3000000000, now_cases=4000000),
                  R("vtime", "rel", cases=8000000000, now_cases=4000000),
